@@ -115,23 +115,23 @@ Theorem pump_progress_partial : forall m b s x,
   a_meth x = m -> a_arg x = expected_arg m b s -> a_out x = SWantRead ->
   send_lock s = false -> wbio s ++ a_wdelta x <> [] ->
   exists s1 s2,
-    step m b s PCall (LSsl x) = Some (s1, PFlush KRead, []) /\
-    settle m s1 (PFlush KRead) = (s2, PSending KRead, [ASend (wbio s ++ a_wdelta x)]) /\
+    step m b s PCall (LSsl x) = Some (s1, PFlush (KRead (feeds s)), []) /\
+    settle m s1 (PFlush (KRead (feeds s))) = (s2, PSending (KRead (feeds s)), [ASend (wbio s ++ a_wdelta x)]) /\
     wbio s2 = [].
 Proof. exact wantread_flushes_first. Qed.
 Print Assumptions pump_progress_partial.
 
 (* (iii-b) a task gets to "waiting to read" only through the flush point of the WANT_READ branch: either the outgoing
    BIO was empty while it held the send lock, or its send_all of the whole outgoing BIO has returned. *)
-Theorem read_only_after_flush : forall m b s p l s' a,
-  step m b s p l = Some (s', PRecvWait, a) ->
-  (p = PFlush KRead /\ l = LGo /\ wbio s = [] /\ a = []) \/ (p = PSending KRead /\ l = LT TSent).
+Theorem read_only_after_flush : forall m b s p l s' a n,
+  step m b s p l = Some (s', PRecvWait n, a) ->
+  (p = PFlush (KRead n) /\ l = LGo /\ wbio s = [] /\ a = []) \/ (p = PSending (KRead n) /\ l = LT TSent).
 Proof. exact recvwait_only_after_flush. Qed.
 Print Assumptions read_only_after_flush.
 
 (* (iii-c) recv_into is started only from "waiting to read". *)
 Theorem recv_into_only_from_waiting : forall m b s p l s' p' a,
-  step m b s p l = Some (s', p', a) -> In ARecv a -> p = PRecvWait /\ l = LGo /\ p' = PRecving.
+  step m b s p l = Some (s', p', a) -> In ARecv a -> (exists n, p = PRecvWait n) /\ l = LGo /\ p' = PRecving.
 Proof. exact recv_only_from_recvwait. Qed.
 Print Assumptions recv_into_only_from_waiting.
 
